@@ -1748,3 +1748,127 @@ func (c *Ctx) isLibNamedPtr(t types.Type) bool {
 	n, ok := deref(t).(*types.Named)
 	return ok && n.Obj().Pkg() != nil && (n.Obj().Pkg().Path() == enginePkgPath || n.Obj().Pkg().Path() == rootPkgPath)
 }
+
+// ---------------------------------------------------------------------------
+// R-RUNE-BYTE-ASCII (C19, C06; added after seed C19h): "output ... reaches the sink completely": a character
+// reaches a text sink as its UTF-8 encoding. A rune converted to ONE byte is its own encoding only below
+// utf8.RuneSelf (0x80); every conversion of a rune (int32) to a byte in the library lies under branch facts
+// that bound the rune below 0x80 (or it is a constant below 0x80). A bound of 0xFF - "it fits into a byte" -
+// writes Latin-1, which no reader of the library accepts back.
+func ruleRuneByteASCII(c *Ctx, r *Report) {
+	const rule = "R-RUNE-BYTE-ASCII"
+	desc := "a rune becomes a single byte only where it is known to be ASCII"
+	n := 0
+	for _, fn := range c.LibFuncs() {
+		k := 0
+		eachInstr(fn, func(in ssa.Instruction) {
+			cv, ok := in.(*ssa.Convert)
+			if !ok {
+				return
+			}
+			from, okf := cv.X.Type().Underlying().(*types.Basic)
+			to, okt := cv.Type().Underlying().(*types.Basic)
+			if !okf || !okt || from.Kind() != types.Int32 || to.Kind() != types.Uint8 {
+				return
+			}
+			n++
+			k++
+			key := fmt.Sprintf("%s/byte(rune)#%d", fname(fn), k)
+			if kv, isConst := constInt(cv.X); isConst {
+				if kv >= 0 && kv < 0x80 {
+					r.ok(rule, key, c.at(in), desc, "constant below 0x80", true)
+				} else {
+					r.bad(rule, key, c.at(in), desc, fmt.Sprintf("the constant %d is not an ASCII character", kv))
+				}
+				return
+			}
+			rg := c.rangeAt(in.Block(), cv.X)
+			if rg.hasHi && rg.hi < 0x80 {
+				r.ok(rule, key, c.at(in), desc, fmt.Sprintf("under the fact rune <= %d", rg.hi), true)
+			} else {
+				hi := "none"
+				if rg.hasHi {
+					hi = fmt.Sprint(rg.hi)
+				}
+				r.bad(rule, key, c.at(in), desc, "upper bound known here: "+hi+" (needed: below 0x80): a character from U+0080 up is written as one raw byte instead of its UTF-8 encoding - the sink holds text no reader accepts, and the position counts one byte too few")
+			}
+		})
+	}
+	if n == 0 {
+		r.info(rule, "scan/byte(rune)", "-", desc, "no conversion of a rune to a byte in the library")
+	}
+	r.analysed(rule, fmt.Sprintf("%d conversions int32 -> uint8", n))
+}
+
+// ---------------------------------------------------------------------------
+// R-WRITE-TRUNCATES (C19; added with fix F61): "output ... reaches the sink completely" - and the sink holds that
+// output, not that output followed by the tail of what the file held before. open/3,4 hands the operating system
+// a flag word; the one it computes for mode `write` contains os.O_TRUNC: a constant with that bit occurs in the
+// data slice of the flag argument of the file-opening call (or in the mode constant itself).
+func ruleWriteTruncates(c *Ctx, r *Report) {
+	const rule = "R-WRITE-TRUNCATES"
+	desc := "a file opened for writing is emptied"
+	open := c.registeredFn("open", 4)
+	if open == nil {
+		r.undecided(rule, "anchor:open/4", "-", desc, "not registered")
+		return
+	}
+	trunc := int64(-1)
+	for _, p := range c.Prog.AllPackages() {
+		if p.Pkg.Path() == "os" {
+			if k, ok := p.Pkg.Scope().Lookup("O_TRUNC").(*types.Const); ok {
+				if v, exact := constant.Int64Val(k.Val()); exact {
+					trunc = v
+				}
+			}
+		}
+	}
+	if trunc <= 0 {
+		r.undecided(rule, "anchor:os.O_TRUNC", "-", desc, "constant not found")
+		return
+	}
+	n := 0
+	eachInstr(open, func(in ssa.Instruction) {
+		call, ok := in.(*ssa.Call)
+		if !ok || call.Call.IsInvoke() || len(call.Call.Args) != 3 {
+			return
+		}
+		// the call through the package-level function variable (os.OpenFile by default), or os.OpenFile itself
+		isOpen := false
+		if callee := call.Call.StaticCallee(); callee != nil && callee.Pkg != nil && callee.Pkg.Pkg.Path() == "os" && callee.Name() == "OpenFile" {
+			isOpen = true
+		}
+		if ld, ok := call.Call.Value.(*ssa.UnOp); ok && ld.Op == token.MUL {
+			if g, ok := ld.X.(*ssa.Global); ok && c.isLibPkg(g.Pkg) {
+				isOpen = true
+			}
+		}
+		if !isOpen {
+			return
+		}
+		n++
+		key := fmt.Sprintf("%s/open-flag#%d", fname(open), n)
+		has := false
+		dataSlice(call.Call.Args[1], func(v ssa.Value) bool {
+			if k, ok := constInt(v); ok && k&trunc != 0 {
+				has = true
+			}
+			return !has
+		})
+		if !has {
+			if m, ok := c.Engine.Members["ioModeWrite"].(*ssa.NamedConst); ok {
+				if k, ok := constInt(m.Value); ok && k&trunc != 0 {
+					has = true
+				}
+			}
+		}
+		if has {
+			r.ok(rule, key, c.at(in), desc, "the flag word can contain os.O_TRUNC", true)
+		} else {
+			r.bad(rule, key, c.at(in), desc, "no constant with the os.O_TRUNC bit reaches the flag argument: a shorter text written over a longer file leaves the old tail behind the new output")
+		}
+	})
+	if n == 0 {
+		r.undecided(rule, fname(open)+"/open-flag", c.Pos(open.Pos()), desc, "no file-opening call found in open/4")
+	}
+}
